@@ -189,8 +189,13 @@ def scenarios(tier):
             add(name, ops, "warm", "sync", 2, threads=True)
             add(name, ops, "warm", "astd", 1)
             add(name, ops, "warm", "tok", 1)
-        # unbounded exploration of the two shortest write-write conflicts on a warm cache
-        add("writers-same-key", pairs("quick")[0][1], "warm", "sync", None)
+        # unbounded (all interleavings, no preemption bound) for the short conflicting pairs on a warm cache
+        byname = dict(pairs("quick"))
+        for nm in ("remove-vs-remove", "write-vs-remove", "write-vs-read", "write-vs-metadata", "write-vs-remove_hash", "write_hash-vs-exists", "remove-vs-read", "remove-vs-list"):
+            add(nm, byname[nm], "warm", "sync", None)
+        # the two-writer conflicts (11 + 11 steps warm: 705 432 interleavings) at a higher bound instead
+        add("writers-same-key", byname["writers-same-key"], "warm", "sync", 4)
+        add("writers-different-keys-identical-content", byname["writers-different-keys-identical-content"], "warm", "sync", 4)
     return out
 
 
